@@ -142,14 +142,23 @@ def run(ctx, rep):
             ParserM.made.append(self)
 
         def argument(self, conclusion, premises=None, *, title=None):
-            for s_ in [conclusion] + list(premises or ()):
-                sym, arity = s_[0], len(s_) - 1
-                if self.store.setdefault(sym, arity) != arity:
-                    raise ParseErrorM(f'{sym} used with arity {arity} after {self.store[sym]}')
-            return ('ARGUMENT', conclusion, tuple(premises or ()), title)
+            # the real Parser.argument, folded with this parser as `self` (so what it does with the premises is the code's doing)
+            return _argfold.call(f_parg, [self, conclusion, premises], dict(title=title))
 
         def __call__(self, s_):
+            sym, arity = s_[0], len(s_) - 1
+            if self.store.setdefault(sym, arity) != arity:
+                raise ParseErrorM(f'{sym} used with arity {arity} after {self.store[sym]}')
             return s_
+    f_parg = m.func(PAR, 'Parser.argument')
+    rep.consult(m.loc(PAR, f_parg) + ' Parser.argument')
+
+    class _Dedup(tuple):
+        "tools.qsetf stand-in: an ordered set"
+        def __new__(cls, it_=()):
+            return super().__new__(cls, dict.fromkeys(it_))
+    _argfold = _I(dict(Argument=lambda c_, p_=None, title=None: ('ARGUMENT', c_, tuple(p_ or ()), title), qsetf=_Dedup, qset=_Dedup, map=map, tuple=tuple, list=list),
+                  where='lang/parsing.py Parser.argument')
     initfn = next((st for st in m.trees[LANG].body if isinstance(st, ast.FunctionDef) and st.name == 'init'), None)
     astq.need(initfn is not None, 'lang.init() not found')
     ArgMeta = _O('ArgumentMeta')
@@ -192,7 +201,7 @@ def run(ctx, rep):
         rep.finding(R3, 'C12.R3/Argument.argstr', m.loc(COL, f_as), 'Argument.argstr', f'renders {r!r} for (conclusion Fm; premises KFmGmn, a), expected the ":"-joined writer output, conclusion first')
     # round trip + history independence: the same symbol with another arity in the next argument must still parse
     outs = []
-    for text, title in (('Fm:KFmGmn:a', 'T1'), ('Fmn:Hm', None), ('Gm', None), ('Fm', 'T2')):
+    for text, title in (('Fm:KFmGmn:a', 'T1'), ('Fmn:Hm', None), ('Gm', None), ('Fm', 'T2'), ('a:b:b:Fm:b', None)):
         before = len(ParserM.made)
         try:
             outs.append(ita.call(f_fa, [text], dict(title=title)))
@@ -200,13 +209,14 @@ def run(ctx, rep):
             outs.append(_Rs(f'ParseError: {e}'))
         except (_Rd, TypeError, AttributeError, KeyError, ValueError) as e:
             outs.append(_Rs(f'{type(e).__name__}: {getattr(e, "text", e)}'))
-    want = [('ARGUMENT', 'Fm', ('KFmGmn', 'a'), 'T1'), ('ARGUMENT', 'Fmn', ('Hm',), None), ('ARGUMENT', 'Gm', (), None), ('ARGUMENT', 'Fm', (), 'T2')]
+    want = [('ARGUMENT', 'Fm', ('KFmGmn', 'a'), 'T1'), ('ARGUMENT', 'Fmn', ('Hm',), None), ('ARGUMENT', 'Gm', (), None), ('ARGUMENT', 'Fm', (), 'T2'),
+            ('ARGUMENT', 'a', ('b', 'b', 'Fm', 'b'), None)]
     ok = outs == want
     rep.instance(R3, ok=ok, nontrivial='from_argstr')
     if not ok:
         rep.finding(R3, 'C12.R3/Argument.from_argstr', m.loc(COL, f_fa), 'Argument.from_argstr',
-                    f'four argument strings in a row (a predicate symbol used with different arities in different arguments) give {outs!r}; expected {want!r}: '
-                    f'each string is split on ":" conclusion first and parsed independently of earlier ones')
+                    f'five argument strings in a row (a predicate symbol used with different arities in different arguments; a premise repeated) give {outs!r}; expected {want!r}: '
+                    f'each string is split on ":" conclusion first, parsed independently of earlier ones, every premise kept')
 
     from .. import parsefold
     R6 = rep.rule('C12.R6', 'round trip through the folded parser: the Polish string of every sentence of a structure corpus (all operator shapes, nested '
